@@ -47,6 +47,10 @@ func ModulesAttrs() (*ugo.ModuleMap, map[string]ugo.Object) {
 		"m":   ugo.Map{"k": ugo.Int(3), "inner": ugo.Map{"z": ugo.Int(4)}},
 		"s":   ugo.String("abc"),
 		"b":   ugo.Bytes("xyz"),
+		// empty containers with spare capacity: a copy that keeps the backing array is shared by all VMs
+		"e":  make(ugo.Array, 0, 8),
+		"eb": make(ugo.Bytes, 0, 8),
+		"em": ugo.Map{},
 		"f":   &ugo.Function{Name: "f", Value: func(args ...ugo.Object) (ugo.Object, error) { return ugo.Int(len(args)), nil }},
 	}
 	mm.AddBuiltinModule("bm", attrs)
@@ -182,6 +186,15 @@ bm.m.added = G
 L(bm.x, bm.arr, bm.m)
 bm2 := import("bm")
 return [bm.x, bm.arr, bm.m, bm.s, string(bm.b), bm.f(1, 2), bm2.x]`},
+	{"empty builtin module containers are appended to", `
+global (G, L)
+bm := import("bm")
+e1 := append(bm.e, G)
+L(e1)
+eb1 := append(bm.eb, G % 256)
+bm.em.k = G
+e2 := append(bm.e, G + 1, G + 2)
+return [e1, e2, string(eb1), bm.em, len(bm.e), len(bm.eb)]`},
 	{"builtin module imported inside a function and mutated", `
 global (G, L)
 f := func() { bm := import("bm"); bm.m.k += G; bm.arr[1][0] += 1; return [bm.m.k, bm.arr] }
